@@ -223,6 +223,41 @@ func checkC15(c *Check) {
 				}
 				return true
 			})
+			// a flag copied into another bool local (`ok = ok1` after a helper was read in place) makes that one a flag too
+			for changed := true; changed; {
+				changed = false
+				ast.Inspect(r.FI.Decl.Body, func(n ast.Node) bool {
+					as, ok := n.(*ast.AssignStmt)
+					if !ok || len(as.Rhs) != len(as.Lhs) {
+						return true
+					}
+					for i, l := range as.Lhs {
+						o, isVar := objOf(info, l).(*types.Var)
+						if !isVar || !isBoolType(o.Type()) || found[o] {
+							continue
+						}
+						if src := objOf(info, as.Rhs[i]); src != nil && found[src] {
+							found[o] = true
+							changed = true
+						}
+					}
+					return true
+				})
+			}
+			// the flags the function actually consults (a flag that is only copied into another one is judged there)
+			consulted := map[types.Object]bool{}
+			for _, b := range r.F.G.Blocks {
+				if cond, _ := r.F.Cond(b); cond != nil {
+					ast.Inspect(cond, func(x ast.Node) bool {
+						if id, ok := x.(*ast.Ident); ok {
+							if o := objOf(info, id); o != nil && found[o] {
+								consulted[o] = true
+							}
+						}
+						return true
+					})
+				}
+			}
 			world := func(has bool) func(b *cfgBlock, i int) bool {
 				return r.F.World(func(atom ast.Expr) (bool, bool) {
 					if o := objOf(info, atom); o != nil && found[o] {
@@ -289,7 +324,7 @@ func checkC15(c *Check) {
 								if id, ok := x.(*ast.Ident); ok {
 									if o := objOf(info, id); o != nil && o != normObj {
 										if def, n := localDef(info, r.FI.Decl.Body, o); n >= 1 && def != nil {
-											if call, ok := ast.Unparen(def).(*ast.CallExpr); ok && methodName(call) == "Lookup" {
+											if call, ok := ast.Unparen(def).(*ast.CallExpr); ok && (methodName(call) == "Lookup" || methodName(call) == "LookupMulti") {
 												isLookup = true
 											}
 										}
@@ -314,6 +349,9 @@ func checkC15(c *Check) {
 			unset := ""
 			for o := range found {
 				o := o
+				if !consulted[o] {
+					continue
+				}
 				sets := func(q Pt) bool {
 					as, ok := q.Node().(*ast.AssignStmt)
 					if !ok {
@@ -333,8 +371,8 @@ func checkC15(c *Check) {
 			switch {
 			case unset != "":
 				msg = "the 'found' flag of the prepare_email lookup is left at its zero value on a path to the entitlement lookup: a translation that exists is ignored and the untranslated address is judged: " + unset
-			case len(found) == 0:
-				msg = "undecided: no 'found' flag of the prepare_email lookup"
+			case len(consulted) == 0:
+				msg = "undecided: no 'found' flag of the prepare_email lookup is consulted"
 			case o1 || o2:
 				msg = "the address list handed to the entitlement lookup can be something other than the mapping's translation or the normalised address"
 			case !m1 || f1:
